@@ -14,6 +14,11 @@ package tikv
 // get_val: the value the last Get returned
 //@ ghost get_val Slice
 
+// C09: when the reply to the commit of the primary key is lost, the client library answers
+// ErrResultUndetermined ("execution result undetermined"): the write may have been applied. Commit
+// wraps exactly the errors of uncertainErrList as "unknown outcome", so that error has to be listed.
+//@ global [undetermined-commit-results-are-listed-as-unknown-outcomes] exists(j, 0 <= j && j < len(uncertainErrList), uncertainErrList[j] == tikverr.ErrResultUndetermined, 5)
+
 // ---- assumed contract of the client library ----
 //@ func @github.com/tikv/client-go/v2/txnkv/transaction.(*KVTxn).Get(ctx, k) (val, err)
 //@   assumed
